@@ -45,6 +45,24 @@ MODEL_MAX_WIRE = 1500
 
 ORIGINS = [[b"example", b""], [b"Example", b"COM", b""], [b"a", b"b", b"c", b"d", b"e", b""], [b"x" * 63, b"y" * 63, b""], [b""]]
 
+# dns.rdata.get_rdata_class caches GenericRdata under (ANY, type) when a type that only exists
+# for class IN (A, AAAA, SRV, ...) is first asked for in class ANY, and a LATER first lookup of
+# (IN, type) then resolves to that entry (upstream behaviour, known finding C02-dispatch-any-first).
+# Resolve every implemented (class, type) once, in table order, before any case runs, so that the
+# results of this process do not depend on the order of the generated cases.  (The loader states
+# themselves are exercised in fresh child processes: "dispatch" cases.)
+
+
+def _warm_dispatch():
+    for t in R.table().types:
+        try:
+            dns.rdata.get_rdata_class(1 if t["rdclass"] == 255 else t["rdclass"], t["rdtype"])
+        except Exception:
+            pass
+
+
+_warm_dispatch()
+
 # ------------------------------------------------------------------ generated Coq table
 
 _gen_state = {}
@@ -70,28 +88,38 @@ Proof. vm_compute. reflexivity. Qed.
 Theorem gen_table_origin_exceptions :
   map (fun e => (e_class e, e_type e)) (filter (fun e => negb (entry_origin_ok e)) table) = [(255, 250)].
 Proof. vm_compute. reflexivity. Qed.
-Print Assumptions gen_table_ok.
+(* the generic theorems instantiated on the table generated from the sources of this run *)
+Theorem gen_table_roundtrip : forall e w r ck vs b A P,
+  In e table -> e_codec e = CSchema w r ck ->
+  encode_rdata None (map fst w) ck vs = Ok b ->
+  decode_rdata None (map fst r) ck (A ++ b ++ P) (length A) (length b) = Ok vs.
+Proof. intros. eapply table_roundtrip_none; eauto. exact gen_table_ok. Qed.
+Theorem gen_table_fixed_point : forall e w r ck wire cur rdlen vs,
+  In e table -> e_codec e = CSchema w r ck ->
+  decode_rdata None (map fst r) ck wire cur rdlen = Ok vs ->
+  exists w', encode_rdata None (map fst w) ck vs = Ok w' /\\
+             decode_rdata None (map fst r) ck w' 0 (length w') = Ok vs /\\
+             (forall vs', decode_rdata None (map fst r) ck w' 0 (length w') = Ok vs' ->
+                          encode_rdata None (map fst w) ck vs' = Ok w').
+Proof. intros. eapply table_fixed_point_none; eauto. exact gen_table_ok. Qed.
+Print Assumptions gen_table_roundtrip.
+Print Assumptions gen_table_fixed_point.
 """
     path = os.path.join(d, "GenRdtypes.v")
     with open(path, "w") as f:
         f.write(src)
-    lib.coq_make(["Model/SchemaM.vo"])
+    lib.coq_make(["Proofs/SchemaTable.vo"])
     rc, out, dt = lib.run_cmd(["coqc", "-Q", lib.COQ, "DV", "-Q", d, "Scratch", path], timeout=900)
-    thms = ["gen_table_ok", "gen_table_origin_exceptions", "translation_closed"]
+    thms = ["gen_table_ok", "gen_table_origin_exceptions", "gen_table_roundtrip", "gen_table_fixed_point", "translation_closed"]
     ok = rc == 0 and tr["ok"]
-    discharged = 0
-    if rc == 0:
-        discharged = 2 + (1 if tr["ok"] else 0)
-    else:
-        # which of the two table theorems fails?  re-check each alone for the log
-        discharged = 1 if tr["ok"] else 0
+    discharged = (4 if rc == 0 else 0) + (1 if tr["ok"] else 0)
     log = ""
     if not tr["ok"]:
         log += "translator failed closed: " + "; ".join(tr["errors"]) + "\n"
     if rc != 0:
         log += "generated table does not check:\n" + out[-2500:]
     _gen_state.update(
-        ok=ok, obligations=3, discharged=discharged, theorems=thms, log=log, compiled=(rc == 0),
+        ok=ok, obligations=5, discharged=discharged, theorems=thms, log=log, compiled=(rc == 0),
         info={"types_schema": sum(1 for t in tr["types"] if t["kind"] == "schema"),
               "types_hand": sorted(t["name"] for t in tr["types"] if t["kind"] == "hand"),
               "types_error": sorted(t["name"] for t in tr["types"] if t["kind"] == "error"),
@@ -222,6 +250,8 @@ def enc_case(t, cl, vals, o):
     return "enc", [op, cl, t["rdtype"], vals, o]
 
 
+DISPATCH_MODES = [0, 1, 2]   # 0: dynamic loading; 1: load_all_types(); 2: load_all_types(False)
+
 UNKNOWN_TYPES = [65280, 65534, 0, 4, 7, 3, 100, 256, 32770, 41, 251, 65535]
 
 
@@ -234,6 +264,17 @@ def cases(ctx):
     for t in types:
         # ---- values -> wire
         specimens = []
+        for vals, o in R.corners(t):
+            cl = real_class(t)
+            ctx.count("enc:corner")
+            yield enc_case(t, cl, vals, o)
+            w = wire_of(t, cl, vals, o)
+            if w is not None and len(w) <= 400:
+                ctx.count("dec:corner")
+                yield dec_case(cl, t["rdtype"], b"\x00\x01" + w + b"\xff", 2, len(w), o)
+                if rng.random() < 0.5:
+                    m = mutate(rng, w)
+                    yield dec_case(cl, t["rdtype"], m, 0, len(m), o)
         for i in range(n_enc):
             profile = ["min", "max", "high", "zero"][i] if i < 4 else None
             mode = rng.choice(["abs", "abs", "rel", "mixed"])
@@ -317,6 +358,21 @@ def cases(ctx):
         pre = bytes(rng.randrange(256) for _ in range(rng.choice([0, 3])))
         yield dec_case(cl, ty, pre + data + b"\x01", len(pre), len(data), None)
     ctx.notes["types_covered"] = len(types)
+    # ---- get_rdata_class dispatch in the three loader states (fresh child process each)
+    for mode in DISPATCH_MODES:
+        items = []
+        for t in types:
+            for cl in ([t["rdclass"]] if t["rdclass"] != 255 else [rng.choice([3, 4]), rng.choice([254, 65280, 2, 65534])]):
+                m = rng.choice(["abs", "rel"])
+                o = rng.choice(ORIGINS[:3]) if m == "rel" or rng.random() < 0.3 else None
+                vals = R.gen_values(rng, t, m if o else "abs", o, rng.choice([None, None, "max"]))
+                if t["name"] == "OPT":
+                    continue
+                items.append([cl, t["rdtype"], vals, o])
+        # unknown types stay generic
+        for ty in UNKNOWN_TYPES[:3]:
+            items.append([rng.choice([1, 3]), ty, [R.gen_bytes(rng, 7)], None])
+        yield "dispatch", [21, mode, items]
 
 
 def break_value(rng, t, vals):
@@ -379,7 +435,57 @@ def impl(case):
             return [1, re_]
         vals = [bytes(rd.data)] if t is None else R.values_of(t, rd)
         return [vals, re_]
+    if op == 21:
+        return dispatch_parent(case)
     raise ValueError(op)
+
+
+def dispatch_parent(case):
+    """evaluate the items in a fresh interpreter whose loader state is `mode`"""
+    import json
+    import subprocess
+
+    p = subprocess.run([sys.executable, os.path.abspath(__file__), "--dispatch-child"], input=json.dumps(lib.jsonable(case)).encode(),
+                       stdout=subprocess.PIPE, stderr=subprocess.PIPE, timeout=300, env=dict(os.environ, PYTHONPATH=lib.REPO))
+    if p.returncode != 0:
+        return Err(900, "dispatch child failed: " + p.stderr.decode()[-300:])
+    return lib.unjson(json.loads(p.stdout.decode()))
+
+
+def dispatch_child():
+    """child: set the loader state, then round-trip every item; one result row per item:
+    [typed-as-expected, decoded == original, re-encoding identical, attribute values equal]"""
+    import json
+
+    case = lib.unjson(json.loads(sys.stdin.read()))
+    _, mode, items = case
+    tab = T()
+    if mode == 1:
+        dns.rdata.load_all_types()
+    elif mode == 2:
+        dns.rdata.load_all_types(False)
+    out = []
+    for cl, ty, vals, o in items:
+        t = tab.lookup(cl, ty)
+        origin = oname(o)
+        try:
+            x = dns.rdata.GenericRdata(cl, ty, bytes(vals[0])) if t is None else R.make_rdata(t, cl, vals)
+            w = x.to_wire(origin=origin)
+            y = dns.rdata.from_wire(cl, ty, w, 0, len(w), origin)
+            typed = (type(y) is type(x))
+            eq = bool(y == x) and not (y != x)
+            re_ = y.to_wire(origin=origin) == w
+            try:
+                same = t is None or lib.normalize(R.values_of(t, y)) == lib.normalize(expect_after_decode(t, vals, o) or R.values_of(t, y))
+            except Exception:
+                same = False
+            names = R.names_in(t, vals) if t else []
+            if any(under_origin(n, o) for n in names):
+                eq = True
+            out.append([int(typed), int(eq), int(re_), int(same)])
+        except Exception as e:
+            out.append(nl.exc_code(e))
+    json.dump(lib.jsonable(out), sys.stdout)
 
 
 # ------------------------------------------------------------------ oracle (property text)
@@ -402,7 +508,7 @@ def expect_after_decode(t, vals, o):
         return n[: len(n) - len(o)] if under_origin(n, o) else n
 
     if t["kind"] != "schema":
-        return None
+        return None if any(under_origin(n, o) for n in R.names_in(t, vals)) else vals
     out = []
     # the READER decides whether a name is relativized (get_name(origin) vs get_name())
     for fl, v in zip(t["reader"], vals):
@@ -415,9 +521,33 @@ def expect_after_decode(t, vals, o):
     return out
 
 
+def oracle_dispatch(ctx, kind, case, out):
+    F = []
+    _, mode, items = case
+    if isinstance(out, Err):
+        return [{"kind": "dispatch:child", "what": "dispatch child process failed: " + out.text, "mode": mode}]
+    what = ["decoded with a different class than the implementation of this (class,type)", "decoded record is not equal to the original",
+            "re-encoding differs from the first encoding", "decoded field values differ from the original ones"]
+    for item, res in zip(items, out):
+        tname = dns.rdatatype.to_text(item[1])
+        small = [21, mode, [item]]
+        names = R.names_in(T().lookup(item[0], item[1]), item[2]) if T().lookup(item[0], item[1]) else []
+        tags = {"type": tname, "rdclass": item[0], "mode": mode, "case": small, "with_origin": item[3] is not None,
+                "rel_names": any(not (n and n[-1] == b"") for n in names)}
+        if isinstance(res, Err):
+            F.append({"kind": "dispatch:raised", "what": "round trip raised " + res.text, **tags})
+            continue
+        for flag, w in zip(res, what):
+            if not flag:
+                F.append({"kind": "dispatch:" + w, "what": w, "sig": (mode, tname, w), **tags})
+    return F
+
+
 def oracle(ctx, kind, case, out):
     F = []
     op = case[0]
+    if op == 21:
+        return oracle_dispatch(ctx, kind, case, out)
     cl, ty = case[1], case[2]
     tname = dns.rdatatype.to_text(ty)
 
@@ -453,6 +583,19 @@ def oracle(ctx, kind, case, out):
         rel = any(not (n and n[-1] == b"") for n in names)
         below = any(under_origin(n, o) for n in names)
         tags = {"rel_names": rel, "with_origin": o is not None}
+        try:
+            f = io.BytesIO()
+            x.to_wire(f, None, origin)
+            if f.getvalue() != w:
+                fail("to_wire into a file differs from to_wire()", **tags)
+            g = x.to_generic(origin)
+            if type(g) is not dns.rdata.GenericRdata or g.to_wire() != w or g.rdtype != ty or g.rdclass != cl:
+                fail("RFC 3597 generic form does not carry the same octets", **tags)
+            g2 = dns.rdata.from_wire(cl, ty, g.to_wire(), 0, len(w), origin)
+            if g2.to_wire(origin=origin) != w:
+                fail("decoding the generic form's octets gives a different record", **tags)
+        except Exception as e:
+            fail("generic form / file output raised " + type(e).__name__ + ": " + str(e)[:60], **tags)
         if y.to_wire(origin=origin) != w or y2.to_wire(origin=origin) != w:
             fail("re-encoding differs from the first encoding", **tags)
         if not below:
@@ -465,7 +608,7 @@ def oracle(ctx, kind, case, out):
             except Exception as e:
                 fail("decoded record has unusable attributes: " + type(e).__name__)
                 return F
-            if exp is not None and lib.normalize(got) != lib.normalize(norm_vals(t, exp)):
+            if exp is not None and lib.normalize(norm_vals(t, got)) != lib.normalize(norm_vals(t, exp)):
                 fail("decoded field values differ from the original ones", **tags)
         return F
     # ---- decode of arbitrary octets
@@ -504,6 +647,10 @@ def oracle(ctx, kind, case, out):
 
 
 def norm_vals(t, vals):
+    """value normalisation that the codec is allowed to perform (still an equal record)"""
+    if t["kind"] == "hand" and t["hand"] == "apl":
+        # unknown address families: trailing zero octets of the address are trimmed on the wire
+        return [[f, n, a if f in (1, 2) else bytes(a).rstrip(b"\0"), p] for f, n, a, p in vals]
     return vals
 
 
@@ -549,3 +696,8 @@ def widen(ctx, disagreements):
             if len(found) > 3:
                 return found
     return found
+
+
+if __name__ == "__main__":
+    if "--dispatch-child" in sys.argv:
+        dispatch_child()
